@@ -144,6 +144,34 @@ Theorem otsu_bracket : forall l lo hi,
 Proof. exact otsu_bracket_lemma. Qed.
 Print Assumptions otsu_bracket.
 
-(* otsu_affine (otsu (a x + b) = a otsu x + b, a > 0) is NOT proved: it needs var (a x + b) = a^2 var x through
-   the Welford recurrences of running_variance (missing lemma: rv_aux_affine); the clause is checked on the
-   implementation only (exactly for power-of-two a and dyadic b, at 1e-9 otherwise). *)
+(* S6: the cut commutes with positive affine rescaling (integer a > 0, b on the integer-scaled dyadic data;
+   core lemma rv_aux_affine: the Welford recurrences of running_variance scale by a^2) *)
+From Centro Require Import Proofs.OtsuAffine Proofs.ThresholdRound.
+Theorem otsu_affine : forall (a b : Z), (0 < a)%Z -> forall l, filter_nan l <> [] ->
+  otsu (map (option_map (fun x => (a * x + b)%Z)) l) == inject_Z a * otsu l + inject_Z b.
+Proof. exact otsu_affine_lemma. Qed.
+Print Assumptions otsu_affine.
+
+(* ---------------------------------------------------------------- S3 in the implementation's arithmetic *)
+(* for EVERY finite binary64 g >= 0 the two rounded band products bracket g (fmul = round-to-nearest-even
+   binary64 of the exact product; band_lo, band_hi = the doubles 0.7 and 1.5) *)
+Theorem fmul_band_bracket : forall g,
+  0 <= g -> binary64 g -> fmul g band_lo <= g /\ g <= fmul g band_hi.
+Proof. exact fmul_band_bracket_lemma. Qed.
+Print Assumptions fmul_band_bracket.
+
+(* hence S3 for binary64 scalar arithmetic with no side hypothesis except that the returned global
+   threshold is a binary64 value *)
+Theorem local_in_band_binary64 : forall (amul : Q -> Q -> Q) (cast : Q -> Q) inp lo hi l g,
+  (forall a b, a <= b -> cast a <= cast b) ->
+  0 <= lo -> lo <= hi ->
+  run fmul amul cast inp get_threshold_prog (Some lo) (Some hi) = Some (l, VNum g) ->
+  binary64 g ->
+  match l with
+  | VNum t => lo <= t /\ t <= hi
+  | VArr ts => forall i t, nth_error ts i = Some t -> unlabelled inp i = false ->
+                           in_range_cast cast lo hi t /\ in_band_cast fmul cast g t
+  | VNone => False
+  end.
+Proof. exact local_in_band_binary64_lemma. Qed.
+Print Assumptions local_in_band_binary64.
